@@ -16,7 +16,11 @@ from .models.sqlmodel import SqlModelCodeGenerator
 try:
     import ruamel.yaml as yaml
 
-    yaml_load = yaml.YAML(typ='safe', pure=True).load
+
+    def yaml_load(stream):
+        # A YAML() object keeps the state of the document it parses: one object per load,
+        # so that loads running concurrently in several threads do not corrupt each other
+        return yaml.YAML(typ='safe', pure=True).load(stream)
 except ImportError:
     try:
         import yaml
